@@ -12,6 +12,8 @@ Static rules (DESIGN.md §C18):
                 literals is rejected for any other string
  validate       dot-index / spec / parameter lists consumed by the accessors reach a raising
                 validator in the constructor (sibling rule)
+ param-guards   frozen table of constructor / validator parameters (alpha0, lambd, nalpha, nspin, modes,
+                params[k], counts) that must still occur in the test of an assert / raise
  dispatch       string ladders end in a raise or dispatch on a validated closed set
  expnt-guard    every normal exit of eval_feat_exp passes the large-exponent test
  guards         frozen table of shape/contiguity guards dominating native calls, and of the
@@ -147,7 +149,7 @@ def rule_len(chk, prog):
                 d = symlen.simplify(ln - nf, g.facts)
                 if d == symlen.Lin.c(0):
                     continue
-                if ln.uncertain() or nf.uncertain() and d.uncertain():
+                if d.uncertain():
                     raise core.AnalysisError("%s.%s (%s): length %r is not comparable with nfeat %r"
                                              % (c.name, meth, g.label(), ln, nf))
                 bad.append((g, ln, nf))
@@ -591,9 +593,9 @@ def rule_expnt(chk, prog):
 
 
 # ----------------------------------------------------------------------------
-# rule 6: shape / contiguity guards (frozen table, generated from the pinned tree by
-#         tools in this file: `python3 checks/c18.py --tier quick` prints nothing about it; the
-#         table below was produced by collect_guards() and is compared as a multiset lower bound)
+# rule 6: shape / contiguity guards.  FROZEN_GUARDS was produced from the pinned tree by
+#         collect_guards() (`C18_DUMP_GUARDS=1 python3 checks/c18.py` prints the current table) and is
+#         compared as a multiset lower bound: a guard may be added, none may disappear.
 # ----------------------------------------------------------------------------
 GUARD_TOKENS = (("c_contiguous", "contig"), ("f_contiguous", "contig"), ("contiguous", "contig"),
                 ("shape", "shape"), ("ndim", "ndim"), ("size", "size"), ("dtype", "dtype"), ("nfeat", "nfeat"))
@@ -644,6 +646,66 @@ def _test_subjects(test, subst=None):
                     out.setdefault(s2, set()).add("len")
             else:
                 out.setdefault(subj, set()).add("len")
+    return out
+
+
+import re as _re  # noqa: E402
+
+_CINT = _re.compile(r"(?:ctypes\.)?c_(?:int|long|size_t|int32|int64)\((\w+)\)$")
+
+
+def _lin_of(e, names):
+    """expression over the given names and integer literals -> symlen.Lin or None"""
+    L = symlen.Lin
+    if isinstance(e, ast.Constant) and isinstance(e.value, int) and not isinstance(e.value, bool):
+        return L.c(e.value)
+    if isinstance(e, ast.Name) and e.id in names:
+        return L.atom(names[e.id][0])
+    if isinstance(e, ast.BinOp) and isinstance(e.op, (ast.Add, ast.Sub)):
+        a, b = _lin_of(e.left, names), _lin_of(e.right, names)
+        if a is None or b is None:
+            return None
+        return a + b if isinstance(e.op, ast.Add) else a - b
+    if isinstance(e, ast.BinOp) and isinstance(e.op, ast.Mult):
+        a, b = _lin_of(e.left, names), _lin_of(e.right, names)
+        if a is not None and b is not None:
+            if a.is_const():
+                return b.scale(a.const)
+            if b.is_const():
+                return a.scale(b.const)
+    return None
+
+
+def _linear_relations(test, names):
+    """assert test -> canonical strings `<lin> <= 0` / `<lin> == 0` for each comparison link that is linear in
+    the scalar call arguments (a < b is a + 1 <= b for integers); conjunctions are split"""
+    out = []
+    if isinstance(test, ast.BoolOp) and isinstance(test.op, ast.And):
+        for v in test.values:
+            out += _linear_relations(v, names)
+        return out
+    if not isinstance(test, ast.Compare):
+        return out
+    terms = [test.left] + list(test.comparators)
+    for op, a, b in zip(test.ops, terms[:-1], terms[1:]):
+        la, lb = _lin_of(a, names), _lin_of(b, names)
+        if la is None or lb is None or (la.is_const() and lb.is_const()):
+            continue
+        if isinstance(op, ast.LtE):
+            d, rel = la - lb, "<="
+        elif isinstance(op, ast.Lt):
+            d, rel = la - lb + 1, "<="
+        elif isinstance(op, ast.GtE):
+            d, rel = lb - la, "<="
+        elif isinstance(op, ast.Gt):
+            d, rel = lb - la + 1, "<="
+        elif isinstance(op, ast.Eq):
+            d, rel = la - lb, "=="
+            if repr(-d) < repr(d):
+                d = -d
+        else:
+            continue
+        out.append("%r %s 0" % (d, rel))
     return out
 
 
@@ -744,6 +806,31 @@ def collect_guards(tree, eng, prog):
             if gs:
                 node_sigs[nd.id] = gs
         sigs = []
+        # scalar relations between counts handed to the native call: assert a + b <= c, with every name an
+        # argument `c_int(name)`; canonical linear form over the C parameter names
+        scalars = {}
+        for s_ in sites:
+            cn = g.stmt_of_expr(s_.node)
+            for c, al in s_.pairs:
+                if c is None or al is None:
+                    continue
+                proto = eng.c.lookup(c[1][1], c[0].handles.get(c[1][0]))
+                if proto is None:
+                    continue
+                for i, it in enumerate(al):
+                    m_ = _CINT.match(it[1])
+                    if m_ and i < len(proto.params) and m_.group(1).isidentifier():
+                        scalars.setdefault(m_.group(1), (proto.params[i][0], cn.id if cn else None))
+        if scalars:
+            rel_nodes = {}
+            for nd in g.nodes:
+                if nd.kind == "stmt" and isinstance(nd.ast, ast.Assert):
+                    for canon in _linear_relations(nd.ast.test, scalars):
+                        rel_nodes.setdefault(canon, set()).add(nd.id)
+            for canon, ids in sorted(rel_nodes.items()):
+                dsts = sorted({d for _, d in scalars.values() if d is not None}) or [g.exit.id]
+                if all(g.must_pass(lambda nd, ids=ids: nd.id in ids, dst=d)[0] for d in dsts):
+                    sigs.append("rel:" + canon)
         all_subjects = {}
         for nid, gs in node_sigs.items():
             for subj, kinds in gs.items():
@@ -790,6 +877,12 @@ def rule_guards(chk, eng, prog):
                 chk.ok("guards", inst)
             else:
                 ident, kind = sig.split(":", 1)
+                if ident == "rel":
+                    chk.violation("guards", rel, qual, "guard %s" % sig, 0,
+                                  "on the pinned tree every path to the native call asserted the relation `%s` between "
+                                  "the counts it passes (names are the C parameters); no assert on every path implies "
+                                  "it in that form any more" % kind, instance=inst)
+                    continue
                 what = {"p": "parameter #%s" % ident[1:], "c": "the array passed as C parameter %s" % ident[2:],
                         "s": ident}[ident[0]]
                 chk.violation("guards", rel, qual, "guard %s" % sig, 0,
@@ -799,7 +892,6 @@ def rule_guards(chk, eng, prog):
                                  kind, what), instance=inst)
 
 
-# generated from the pinned tree by collect_guards() (see /tmp-less recipe in the docstring of rule 6)
 FROZEN_GUARDS = {
     'ciderpress/dft/baselines.py::get_libxc_gga_baseline': ['c:get_gga_baseline.exc:contig', 'c:get_gga_baseline.exc:shape', 'c:get_gga_baseline.vrho:contig', 'c:get_gga_baseline.vrho:shape', 'c:get_gga_baseline.vsigma:contig', 'c:get_gga_baseline.vsigma:shape', 'p1:contig', 'p2:contig', 'p2:shape'],
     'ciderpress/dft/baselines.py::get_libxc_lda_baseline': ['c:get_lda_baseline.exc:contig', 'c:get_lda_baseline.exc:shape', 'c:get_lda_baseline.vrho:contig', 'c:get_lda_baseline.vrho:shape', 'p1:contig'],
@@ -809,10 +901,10 @@ FROZEN_GUARDS = {
     'ciderpress/dft/feat_normalizer.py::FeatNormalizerList.get_derivative_of_normed_features': ['p0:checked:_check_shape', 'p1:checked:_check_shape'],
     'ciderpress/dft/feat_normalizer.py::FeatNormalizerList.get_derivative_wrt_unnormed_features': ['p0:checked:_check_shape', 'p1:checked:_check_shape'],
     'ciderpress/dft/feat_normalizer.py::FeatNormalizerList.get_normalized_feature_vector': ['p0:checked:_check_shape'],
-    'ciderpress/dft/grids_indexer.py::AtomicGridsIndexer.reduce_angc_ylm_': ['p0:contig', 'p0:dtype', 'p0:shape', 'p1:contig', 'p1:dtype', 'p1:shape', 'self.all_weights:size'],
+    'ciderpress/dft/grids_indexer.py::AtomicGridsIndexer.reduce_angc_ylm_': ['p0:contig', 'p0:dtype', 'p0:shape', 'p1:contig', 'p1:dtype', 'p1:shape', 'rel:nalpha + offset - stride <= 0', 'self.all_weights:size'],
     'ciderpress/dft/lcao_convolutions.py::ATCBasis.__init__': ['p0:contig', 'p1:contig', 'p2:contig', 'p3:contig', 'p4:contig'],
     'ciderpress/dft/lcao_convolutions.py::ATCBasis.bas': ['c:get_atco_bas.bas:contig'],
-    'ciderpress/dft/lcao_convolutions.py::ATCBasis.convert_rad2orb_': ['p0:contig', 'p0:dtype', 'p0:ndim', 'p0:shape', 'p1:contig', 'p1:dtype', 'p1:ndim', 'p1:shape', 'p2:contig', 'p2:dtype', 'p2:ndim', 'p2:size', 'p3:contig', 'p3:dtype'],
+    'ciderpress/dft/lcao_convolutions.py::ATCBasis.convert_rad2orb_': ['p0:contig', 'p0:dtype', 'p0:ndim', 'p0:shape', 'p1:contig', 'p1:dtype', 'p1:ndim', 'p1:shape', 'p2:contig', 'p2:dtype', 'p2:ndim', 'p2:size', 'p3:contig', 'p3:dtype', 'rel:nalpha + offset - stride <= 0'],
     'ciderpress/dft/lcao_convolutions.py::ATCBasis.env': ['c:get_atco_env.env:contig'],
     'ciderpress/dft/lcao_convolutions.py::ConvolutionCollection.__init__': ['c:generate_convolution_collection.alpha_norms:size', 'c:generate_convolution_collection.icontrib_ids:len'],
     'ciderpress/dft/lcao_convolutions.py::ConvolutionCollection.multiply_atc_integrals': ['p0:contig', 'p0:shape', 'p1:contig', 'p1:shape'],
@@ -821,7 +913,7 @@ FROZEN_GUARDS = {
     'ciderpress/dft/lcao_interpolation.py::LCAOInterpolator._contract_grad_terms': ['c:contract_grad_terms_parallel.atm_g:contig'],
     'ciderpress/dft/lcao_interpolation.py::LCAOInterpolator._interpolate_nopar_atom': ['p0:shape', 'p1:shape'],
     'ciderpress/dft/lcao_interpolation.py::LCAOInterpolator._interpolate_nopar_atom_deriv': ['c:compute_mol_convs_single_new.f_gq:contig', 'c:compute_mol_convs_single_new.f_gq:shape', 'p0:shape', 'p1:shape'],
-    'ciderpress/dft/lcao_interpolation.py::LCAOInterpolator._orb2spline_': ['p1:contig', 'p1:shape', 'p2:contig', 'p2:shape', 'p3:contig'],
+    'ciderpress/dft/lcao_interpolation.py::LCAOInterpolator._orb2spline_': ['p1:contig', 'p1:shape', 'p2:contig', 'p2:shape', 'p3:contig', 'rel:nalpha + offset_orb - orb_stride <= 0', 'rel:nalpha + offset_spline - spline_stride <= 0'],
     'ciderpress/dft/lcao_interpolation.py::LCAOInterpolator._set_num_ai': ['p0:contig', 'p0:shape'],
     'ciderpress/dft/plans.py::NLDFSplinePlan.get_a2q_fast': ['c:cider_ind_clip.derivi_g:contig', 'c:cider_ind_clip.derivi_g:shape', 'c:cider_ind_clip.di_g:contig', 'c:cider_ind_clip.di_g:shape'],
     'ciderpress/dft/plans.py::_get_ovlp_fit_interpolation_coefficients': ['c:cider_coefs_gto_gq.alphas:contig', 'c:cider_coefs_gto_gq.dp_ga:contig', 'c:cider_coefs_gto_gq.dp_ga:shape', 'c:cider_coefs_gto_gq.p_ga:contig', 'c:cider_coefs_gto_gq.p_ga:shape', 'p1:contig'],
@@ -1007,7 +1099,7 @@ def analyse(chk):
     chk.floor("param-guards", 29, "frozen table of 30 guarded parameter names")
     chk.floor("dispatch", 24, "multi-arm string ladders in the six anchored modules")
     chk.floor("expnt-guard", 2, "guard on every exit + flag default")
-    chk.floor("guards", 200, "229 guard signatures frozen today")
+    chk.floor("guards", 218, "233 guard signatures frozen today")
     chk.floor("reject-mode", 20, "mode/sl_level/rho_mult/rho_damp x classes")
     chk.assumptions += [
         "x86-64 System V calling convention; ctypes without argtypes passes c_int/c_double/pointers as built",
@@ -1144,6 +1236,8 @@ def mutants(tree):
                "        if model.nfeat != normalizer.nfeat:\n            raise ValueError\n", "", expect="guards"),
         Mutant("guards: RBFEvaluator contiguity loop removed", XE,
                "        for arr in [res, dres, X1]:\n            assert arr.flags.c_contiguous\n", "", expect="guards"),
+        Mutant("guards: offset + nalpha <= stride weakened to nalpha <= stride", LC,
+               "        assert offset + nalpha <= stride\n", "        assert nalpha <= stride\n", expect="guards"),
         # ---- count-prov
         Mutant("count: stride differs from the allocated dimension (qg branch)", PL,
                "                ctypes.c_int(arg_g.size),\n                ctypes.c_int(self.nalpha),",
@@ -1152,4 +1246,10 @@ def mutants(tree):
 
 
 if __name__ == "__main__":
+    if os.environ.get("C18_DUMP_GUARDS"):
+        import json
+        _t = core.Tree()
+        _eng = ffi.Engine(_t, ffi_modules(_t))
+        print(json.dumps(collect_guards(_t, _eng, pf.Program(_t, [ST, PL, FN, XE, NC, LC])), indent=1))
+        sys.exit(0)
     sys.exit(core.main(PROP, analyse, mutants, __doc__))
